@@ -21,6 +21,7 @@ PROPS['C04'] = {
         '(*tree.Edge).HashCode', '(*tree.Tree).UpdateTipIndex',
         '(*tree.Edge).HashEquals', '(*tree.Edge).SameBipartition', '(*tree.Edge).FindEdge',
         '(*tree.Tree).clearBitSetsRecur', '(*tree.Tree).ClearBitSets',
+        '(*hashmap.HashMap).Value', '(*hashmap.HashMap).PutValue', '(*hashmap.HashMap).rehash',
     ],
     'lemma_files': [],
     'trusted_base': TB_COMMON,
@@ -100,7 +101,9 @@ PROPS['C11'] = {
                   ('support.FBP$2', {}),
                   ('support.TBE$1', {}),
                   ('support.TBE$2', {'match': [r'^ownership', r'^post\.done', r'^nilchan', r'^inv']}),
-                  ('cmd.compareTreesCmd.RunE', {'match': [r'^nilchan']})],
+                  ('cmd.compareTreesCmd.RunE', {'match': [r'^nilchan']}),
+                  ('(*hashmap.HashMap).Value', {'match': [r'^callsite', r'^post\.read_lock', r'^inv']}),
+                  ('(*hashmap.HashMap).PutValue', {'match': [r'^callsite', r'^post\.write_lock', r'^inv']})],
     'trusted_base': TB_COMMON + ['A-OWN: ownership discipline => race freedom and schedule independence (Go memory model)'],
     'assumptions': A_COMMON,
     'explanation': 'Deductive proof of an ownership + completion protocol on the worker closures; sequential VCs cannot enumerate interleavings, so the result is a sufficient-condition argument (DESIGN.md section 4, C11).',
